@@ -1,23 +1,24 @@
-SPECIFICATION SpecSim
+SPECIFICATION Spec
 CONSTANTS
   U = 1000
   OneMs = 2
   OffMax = 20
   PB = 500000
   SatSecs = 2001
-  Advs <- AdvsFull
-  Offs <- OffsFull
-  Weights <- WeightsFull
+  Advs <- AdvsSmall
+  Offs <- OffsSmall
+  Weights <- WeightsSmall
   AllowSat = TRUE
-  BumpDen = 8
+  BumpDen = 2
   InitClkEpochs = {0, 1}
-  MaxLen = 24
+  MaxLen = 4
   RawMags <- RawMagsOne
   StepUsesDoubleInv = FALSE
   DurationWraps = FALSE
-  Jumps <- JumpsFull
-  StepAt = {1, 2, 3, 4}
-  MaxInDo = 8
+  Jumps <- JumpsSmall
+  StepAt = {1, 2, 3}
+  MaxInDo = 2
   ReadsNowFirst = FALSE
-  StepDen = 24
+  StepDen = 4
+VIEW ViewGen
 INVARIANTS Emit
